@@ -261,7 +261,7 @@ def check(ctx: Ctx) -> list[RuleResult]:
     r8.nontrivial += 1
 
     def _changes_state(x) -> bool:
-        return x.ast is not None and any(isinstance(c, ast.Call) and isinstance(c.func, ast.Attribute) and c.func.attr == "set_state" for c in ast.walk(x.ast))
+        return x.ast is not None and x.kind in ("stmt", "test", "iter", "with") and any(isinstance(c, ast.Call) and isinstance(c.func, ast.Attribute) and c.func.attr == "set_state" for c in ast.walk(x.ast))
 
     leaks8 = cfg8.exits_reachable_without(sleeps[0].id, _changes_state, skip_start_exc=True, edge_ok=lambda n_, lab: not lab.startswith("exc") and lab != "cancel")
     leaks8 = [lk for lk in leaks8 if lk[0].kind != "raise_exit"]
